@@ -222,6 +222,32 @@ pub fn native_minmax<T, const LESS: bool>(
     }
 }
 
+/// Stable merge sort by a strict "less than" predicate. Whatever the predicate answers, it
+/// terminates and returns a permutation of its input; for a consistent order it is the stable sort.
+fn stable_sort_by<T: Copy>(items: &mut Vec<T>, less: impl Fn(&T, &T) -> bool + Copy) {
+    let n = items.len();
+    if n < 2 {
+        return;
+    }
+    let mut right = items.split_off(n / 2);
+    stable_sort_by(items, less);
+    stable_sort_by(&mut right, less);
+    let left = std::mem::take(items);
+    let (mut i, mut j) = (0, 0);
+    while i < left.len() && j < right.len() {
+        // the later element only overtakes when it is strictly less: ties keep the input order
+        if less(&right[j], &left[i]) {
+            items.push(right[j]);
+            j += 1;
+        } else {
+            items.push(left[i]);
+            i += 1;
+        }
+    }
+    items.extend_from_slice(&left[i..]);
+    items.extend_from_slice(&right[j..]);
+}
+
 pub fn native_sorted<T>(
     vm: &mut Vm<T>,
     iterable: Value,
@@ -257,8 +283,10 @@ pub fn native_sorted<T>(
                         vm.stack_pop();
                         result.push((key, k, v));
                     }
-                    result.sort_by(|(a, _, _), (b, _, _)| {
-                        a.partial_cmp(b).unwrap_or(std::cmp::Ordering::Equal)
+                    // the language's comparison is not a total order (NaN, nil against objects,
+                    // ...), which the standard library's sort is entitled to panic on
+                    stable_sort_by(&mut result, |(a, _, _), (b, _, _)| {
+                        matches!(a.partial_cmp(b), Some(std::cmp::Ordering::Less))
                     });
 
                     let mut out = vm.init_table()?;
